@@ -199,8 +199,128 @@ def run(ses, rep):
                     flagged.append((f"{f.name}/no-direct-output", "the stdin worker writes to stdout or the file system directly", "valid"))
             rep.add(f"{f.name}/path{pi}/explored", "unsat", "no fs mutation / stdout write in the stdin worker closure") if not find_calls(o.trace, lambda n_: clihooks.is_fs_mutation(n_) or is_stdout_write(n_)) else None
             rep.queries += 0
+    flagged += stdin_buffer_untouched(ses, rep, funcs)
+    flagged += skip_flag_sources(ses, rep, funcs)
     flagged += range_wiring(ses, rep)
     confirm(rep, flagged)
+
+
+READ_ARM_CALLS = ("String::new", "stdin", "read_to_string", "map_err", "and_then", "send", "unwrap", "deref", "lock", "clone", "into", "context", "with_context", "expect",
+                  "map", "drop", "from", "as_ref", "borrow", "deref_mut", "to_string", "display")
+
+
+def stdin_buffer_untouched(ses, rep, funcs):
+    """the text handed to format_string is the text read from stdin, byte for byte: (a) in the closure that calls format_string the String
+    argument comes straight out of the closure's captured variables (moves / copies only - no call in between); (b) the closure that reads
+    stdin calls nothing on the buffer but read_to_string (its callees are the plumbing listed in READ_ARM_CALLS)."""
+    flagged = []
+    cl = [f for n_, l in funcs.items() for f in l if "{closure" in n_ and
+          any(s_[0] == "call" and canon(s_[2]).split("::")[-1] == "format_string" for sts in f.blocks.values() for s_ in sts)]
+    for f in cl:
+        defs = {}
+        for sts in f.blocks.values():
+            for s_ in sts:
+                if s_[0] in ("call", "assign") and s_[1] is not None and not s_[1].proj:
+                    defs.setdefault(s_[1].local, []).append(s_)
+        for sts in f.blocks.values():
+            for s_ in sts:
+                if s_[0] == "call" and canon(s_[2]).split("::")[-1] == "format_string" and s_[3]:
+                    op = s_[3][0]
+                    ok, steps = False, 0
+                    while steps < 6:
+                        steps += 1
+                        loc = op[1] if isinstance(op, tuple) and len(op) > 1 and hasattr(op[1], "local") else None
+                        if loc is None:
+                            break
+                        if loc.local == "_1":           # a field of the closure environment
+                            ok = True
+                            break
+                        ds = defs.get(loc.local, [])
+                        if len(ds) != 1 or ds[0][0] != "assign" or not (isinstance(ds[0][2], tuple) and ds[0][2][0] == "use"):
+                            break
+                        op = ds[0][2][1]
+                    r, m = ses.obligation(f"{f.name}/format_string-input-is-the-captured-buffer", [], z3.BoolVal(not ok),
+                                          "format_string receives the captured buffer itself (no call rewrites it on the way)")
+                    if r == "sat":
+                        flagged.append((f"{f.name}/format_string-input-is-the-captured-buffer", "the text read from stdin is rewritten before format_string sees it "
+                                        "(the pass-through of an ignored path would echo the rewritten text)", "ignored-passthrough"))
+    readers = [f for n_, l in funcs.items() for f in l if "{closure" in n_ and
+               any(s_[0] == "call" and canon(s_[2]).split("::")[-1] == "read_to_string" and "Stdin" in s_[2] for sts in f.blocks.values() for s_ in sts)]
+    for f in readers:
+        other = sorted({canon(s_[2]).split("::")[-1] for sts in f.blocks.values() for s_ in sts if s_[0] == "call"
+                        and not any(canon(s_[2]).split("::")[-1] == a.split("::")[-1] for a in READ_ARM_CALLS)})
+        r, m = ses.obligation(f"{f.name}/reads-stdin-and-nothing-else", [], z3.BoolVal(bool(other)), "between read_to_string and format_string nothing else is called")
+        if r == "sat":
+            flagged.append((f"{f.name}/reads-stdin-and-nothing-else", f"the stdin reader also calls {other}: the text may be changed before it is formatted / passed through", "ignored-passthrough"))
+    if not cl or not readers:
+        raise Inconclusive("stdin reader / format_string caller closures not found")
+    return flagged
+
+
+def skip_flag_sources(ses, rep, funcs):
+    """the pass-through flag of the stdin job is `respect_ignores && path_is_stylua_ignored(stdin_filepath)` and nothing else: in format(), every
+    definition of each Boolean the stdin worker closure captures besides verify_output is `false` or the Ok payload of path_is_stylua_ignored
+    (a further source - an empty range, a cache hit - would echo text that was never parsed)"""
+    flagged = []
+    fn = [f for f in funcs.get("format", []) if f.kind == "fn"]
+    readers = [f for n_, l in funcs.items() for f in l if "{closure" in n_ and f.params and
+               any(s_[0] == "call" and canon(s_[2]).split("::")[-1] == "read_to_string" and "Stdin" in s_[2] for sts in f.blocks.values() for s_ in sts)]
+    if len(fn) != 1 or not readers:
+        raise Inconclusive("format() / the stdin reader closure not found")
+    fn = fn[0]
+    ctys = {f.params[0][1].lstrip("&").replace("mut ", "").strip() for f in readers}
+    defs = {}
+    for sts in fn.blocks.values():
+        for s_ in sts:
+            if s_[0] in ("call", "assign") and s_[1] is not None and not s_[1].proj:
+                defs.setdefault(s_[1].local, []).append(s_)
+    n = 0
+    for sts in fn.blocks.values():
+        for s_ in sts:
+            if s_[0] == "assign" and isinstance(s_[2], tuple) and s_[2][0] == "aggregate" and s_[2][1] == "closure" and s_[2][2] in ctys:
+                for fname, op in s_[2][4]:
+                    loc = op[1] if isinstance(op, tuple) and len(op) > 1 and hasattr(op[1], "local") and not op[1].proj else None
+                    if loc is None or not re.search(r"skip|ignore|pass", fname):
+                        continue
+                    n += 1
+                    bad = []
+                    for d_ in defs.get(loc.local, []):
+                        if d_[0] == "call":
+                            bad.append(canon(d_[2]).split("::")[-1])
+                            continue
+                        rv = d_[2]
+                        if isinstance(rv, tuple) and rv[0] == "use" and isinstance(rv[1], tuple):
+                            if rv[1][0] == "const":
+                                if "true" in str(rv[1]):
+                                    bad.append("const true")
+                                continue
+                            src = rv[1][1] if len(rv[1]) > 1 and hasattr(rv[1][1], "local") else None
+                            # follow moves back to the Ok payload of a call result
+                            steps, okp = 0, False
+                            while src is not None and steps < 6:
+                                steps += 1
+                                if src.proj and any(p_[0] == "downcast" and p_[1] == "Ok" for p_ in src.proj):
+                                    calls = [x for x in defs.get(src.local, []) if x[0] == "call"]
+                                    okp = bool(calls) and all(canon(x[2]).split("::")[-1] == "path_is_stylua_ignored" for x in calls)
+                                    if not okp:
+                                        bad += [canon(x[2]).split("::")[-1] for x in calls] or ["?"]
+                                    break
+                                ds = defs.get(src.local, [])
+                                if len(ds) == 1 and ds[0][0] == "assign" and isinstance(ds[0][2], tuple) and ds[0][2][0] == "use" and len(ds[0][2][1]) > 1 and hasattr(ds[0][2][1][1], "local"):
+                                    src = ds[0][2][1][1]
+                                    continue
+                                bad.append("?")
+                                break
+                            continue
+                        bad.append(str(rv)[:40])
+                    r, m = ses.obligation(f"format/stdin-job/{fname}/only-from-path_is_stylua_ignored", [], z3.BoolVal(bool(bad)),
+                                          "the pass-through flag is false or the answer of path_is_stylua_ignored")
+                    if r == "sat":
+                        flagged.append((f"format/stdin-job/{fname}/only-from-path_is_stylua_ignored", f"the stdin pass-through flag has another source: {sorted(set(bad))} "
+                                        "(text that was never parsed can be echoed with status 0)", "parse-error", ["--range-start", "5", "--range-end", "5"]))
+    if n == 0:
+        raise Inconclusive("the stdin job closure captures no pass-through flag")
+    return flagged
 
 
 def range_wiring(ses, rep):
